@@ -33,13 +33,18 @@ def keys(n):
 def gen_case(rng):
     n = rng.choice([0, 1, 2, 3, 3, 4, 5, 7, 10, 30, 100])
     ks = keys(n + 3)
-    wstyle = rng.choice(["one", "small", "big", "zero-mixed"])
+    wstyle = rng.choice(["one", "small", "big", "zero-mixed", "big-equal"])
+    if wstyle == "big-equal" and n not in (3, 6, 9):
+        n = rng.choice([3, 6, 9])          # totals divisible by 3 with weights beyond 2^53: exactly 2/3 must be refused
+        ks = keys(n + 3)
     ws = []
     for i in range(n):
         if wstyle == "one":
             ws.append(1)
         elif wstyle == "small":
             ws.append(rng.randrange(1, 10))
+        elif wstyle == "big-equal":
+            ws.append((1 << 60) + 1)
         elif wstyle == "big":
             ws.append(rng.choice([(1 << 64) - 1, 1 << 60, rng.getrandbits(64)]))
         else:
@@ -50,7 +55,7 @@ def gen_case(rng):
     # choose signers so that the signed weight lands near the 2/3 boundary
     order = list(range(n))
     rng.shuffle(order)
-    target = rng.choice(["below", "exact", "above", "all", "none", "random"])
+    target = rng.choice(["below", "exact", "above", "all", "none", "random"]) if wstyle != "big-equal" else rng.choice(["exact", "exact", "above"])
     chosen, acc = [], 0
     for i in order:
         if target == "none":
@@ -118,6 +123,22 @@ def tlb_nodes(c):
     return [vs.list[i] for i in range(n)]
 
 
+def systematic_cases():
+    """every number of signers k = 0..n for n = 1..8 equal-weight validators, with weight 1 and with weight 2^60+1:
+    covers every residue of the total modulo 3 and the exact 2/3 boundary (deterministic, independent of the seed)"""
+    out = []
+    root, file = bytes(range(32)), bytes(range(32, 64))
+    msg = b"pn\x0b\xc5" + root + file
+    for w in (1, (1 << 60) + 1, 7):
+        for n in range(1, 9):
+            ks = keys(n)
+            for k in range(n + 1):
+                sigs = [(hashlib.sha256(b"\xc6\xb4\x13H" + ks[i][1]).digest().hex(), ks[i][0].sign(msg).signature.hex()) for i in range(k)]
+                out.append({"pks": [ks[i][1].hex() for i in range(n)], "ws": [w] * n, "sigs": sigs,
+                            "root": root.hex(), "file": file.hex(), "via_tlb": False})
+    return out
+
+
 def py_check(c):
     from pytoniq_core.proof.check_proof import check_block_signatures
     if c.get("via_tlb") and c["pks"]:
@@ -174,7 +195,7 @@ def spec_accept(c):
 
 
 def run(ctx):
-    cases = [gen_case(ctx.rng) for _ in range(ctx.n(500, 6000))]
+    cases = systematic_cases() + [gen_case(ctx.rng) for _ in range(ctx.n(450, 6000))]
     impl, model = ctx.correspond("check_block_signatures", cases, py_check, line, lambda c: len(c["sigs"]) > 0)
     acc = 0
     for c, a in zip(cases, impl):
